@@ -29,4 +29,36 @@ GROUPS = {
             {'name': 'k_includes_overlaps_v4', 'what': 'includes == asn equal && covers && eff max >=; overlaps == covers either way; no panic'},
         ],
     },
+    'k_bgp_prefix': {
+        'property': 'C17',
+        'title': 'RoutePrefix implementations (covers / closest_ancestor / bit) equal their bit-level meaning, v4 and v6, full domain',
+        'deps': ['k_api_roa'],
+        'inject': [('src/server/bgp/riswhois.rs', 'k_bgp_prefix.rs')],
+        'functions': ['<Ipv4Prefix as RoutePrefix>::{covers, closest_ancestor, bit, addr_len}', '<Ipv6Prefix as RoutePrefix>::{covers, closest_ancestor, bit, addr_len}',
+                      'DataIndex::{data, no_data, into_data, usize_to_u31}', 'TreeIndex::{try_from, into_usize, none}'],
+        'assumptions': ['harness inputs satisfy the Ipv4Prefix/Ipv6Prefix type invariant (length <= 32/128, host bits zero)'],
+        'harnesses': [
+            {'name': 'k_covers_v4', 'what': 'Ipv4Prefix::covers == bit-level covers == TypedPrefix::matching_or_less_specific'},
+            {'name': 'k_covers_v6', 'what': 'Ipv6Prefix::covers == bit-level covers'},
+            {'name': 'k_covers_v6_agrees_with_typed', 'what': 'Ipv6Prefix::covers == TypedPrefix::matching_or_less_specific (rpki Prefix::min/max)'},
+            {'name': 'k_closest_ancestor_v4', 'what': 'closest_ancestor covers both, invariant kept, maximal'},
+            {'name': 'k_closest_ancestor_v6', 'what': 'same for v6'},
+            {'name': 'k_bit', 'what': 'bit(i) is the i-th bit from the left, false out of range, no shift overflow'},
+            {'name': 'k_indexes', 'what': 'DataIndex/TreeIndex conversions: no panic, round trip, 31-bit / sentinel limits'},
+        ],
+    },
+    'k_bgp_analyser': {
+        'property': 'C17',
+        'title': 'BOUNDED: validate_set and categorise_roa against RFC 6811, 2 ROAs x 2 route origins, IPv4, AS numbers in {0,1,2}',
+        'deps': ['k_api_roa', 'k_bgp_prefix'],
+        'inject': [('src/server/bgp/analyser.rs', 'k_bgp_analyser.rs')],
+        'functions': ['ValidatedRouteOrigin::validate_set', 'BgpAnalyser::categorise_roa', 'BgpAnalysisEntry::roa_* constructors'],
+        'assumptions': ['bounded: 2 ROAs, 2 route origins of one prefix, IPv4 only, AS numbers 0..2'],
+        'harnesses': [
+            {'name': 'k_validate_set_2x2', 'level': 'bounded', 'tier': 'thorough', 'bound': '2 ROAs x 2 origins, v4, asn<3, unwind 4', 'timeout': 900,
+             'what': 'validate_set gives every origin its RFC 6811 verdict against all given ROAs'},
+            {'name': 'k_categorise_roa_2x2', 'level': 'bounded', 'tier': 'thorough', 'bound': '2 ROAs x 2 origins, v4, asn<3, unwind 4', 'timeout': 900,
+             'what': 'authorizes == origins matched by the ROA; RoaRedundant only if another ROA includes the definition; validating ROA never unseen'},
+        ],
+    },
 }
